@@ -199,7 +199,11 @@ def h5_mutations(nr, nc):
               ['mat', ax, 'indptr', 'decr'], ['mat', ax, 'indptr', 'first'], ['mat', ax, 'indptr', 'last'],
               ['mat', ax, 'indptr', 'drop'], ['mat', ax, 'indptr', 'extra'],
               ['mat', ax, 'data', 'drop'], ['mat', ax, 'data', 'strings'], ['mat', ax, 'data', 'ints'],
-              ['mat', ax, 'data', 'value'],
+              ['mat', ax, 'data', 'value'], ['mat', ax, 'data', 'bool'], ['mat', ax, 'data', 'complex'],
+              ['mat', ax, 'data', 'fixed-strings'], ['mat', ax, 'data', 'uint8'], ['mat', ax, 'data', 'float32'],
+              ['mat', ax, 'indices', 'float'], ['mat', ax, 'indices', 'bool'], ['mat', ax, 'indices', 'strings'],
+              ['mat', ax, 'indices', 'complex'], ['mat', ax, 'indices', 'int64'],
+              ['mat', ax, 'indptr', 'float'], ['mat', ax, 'indptr', 'bool'], ['mat', ax, 'indptr', 'strings'],
               ['md', ax, 'short'], ['md', ax, 'dataset-for-group']]
     return m
 
@@ -277,6 +281,20 @@ def apply_h5(h, mu):
             return
         elif what == 'ints':
             a = np.arange(len(a), dtype=np.int64)
+        elif what == 'bool':
+            a = np.asarray(a) != 0
+        elif what == 'complex':
+            a = np.asarray(a, dtype=np.complex128)
+        elif what == 'fixed-strings':
+            a = np.array([b'1.0'] * len(a), dtype='S3')
+        elif what == 'uint8':
+            a = np.asarray(np.abs(a), dtype=np.uint8)
+        elif what == 'float32':
+            a = np.asarray(a, dtype=np.float32)
+        elif what == 'float':
+            a = np.asarray(a, dtype=np.float64)
+        elif what == 'int64':
+            a = np.asarray(a, dtype=np.int64)
         elif what == 'value' and len(a):
             a[0] = a[0] + 1
         else:
@@ -309,8 +327,14 @@ def tmpdir():
 
 
 def base_doc(c):
+    """the document the library writes: the returned string, or the direct_io stream"""
     t = tables.build(c['spec'])
     d = c.get('date', [2020, 1, 2, 3, 4, 5, 6])
+    if c.get('writer') == 'direct_io':
+        import io
+        buf = io.StringIO()
+        t.to_json(c.get('generated_by', 'gen'), direct_io=buf, creation_date=datetime.datetime(*d))
+        return json.loads(buf.getvalue())
     return json.loads(t.to_json(c.get('generated_by', 'gen'), creation_date=datetime.datetime(*d)))
 
 
@@ -495,10 +519,12 @@ def h5_tree(path):
             if a.ndim > 1:
                 return [1, [[] for _ in range(a.shape[0])]]
             return [1, [[ord(ch) for ch in (x.decode('utf8') if isinstance(x, bytes) else str(x))] for x in a.ravel()]]
-        if a.dtype.kind in 'iub':
+        if a.dtype.kind in 'iu':
             if a.ndim > 1:
                 return [2, [0] * a.shape[0]]
             return [2, [int(x) for x in a.ravel()]]
+        if a.dtype.kind != 'f':
+            return [5, int(a.shape[0]) if a.ndim else 1]        # bool, complex, ...
         if a.ndim > 1:
             return [3, [0] * a.shape[0]]
         return [3, [scaled(float(x)) for x in a.ravel()]]
@@ -539,7 +565,10 @@ def run_h5(c):
     with h5py.File(path, 'w') as h:
         t.to_hdf5(h, c.get('generated_by', 'gen'))
         for mu in c['muts']:
-            apply_h5(h, mu)
+            try:
+                apply_h5(h, mu)
+            except (TypeError, ValueError, IndexError, KeyError, AttributeError, OSError, RuntimeError):
+                pass                 # a descriptor that does not fit the (already mutated) file is a no-op
     tree = h5_tree(path)
     obs = {}
     try:
@@ -763,7 +792,11 @@ def h5_facts(path):
                 if ind.dtype.kind in 'iu' and len(ind) and (ind.min() < 0 or ind.max() >= npos):
                     f['range'].append(ax)
                 if dat.dtype.kind not in 'fiu':
-                    f['elem'].append(ax)
+                    f['elem'].append(ax + ' data')
+                if ind.dtype.kind not in 'iu':
+                    f['elem'].append(ax + ' indices')
+                if ptr.dtype.kind not in 'iu':
+                    f['elem'].append(ax + ' indptr')
     return f
 
 
@@ -781,8 +814,8 @@ def oracle(c, obs):
         doc = extra
         if not c['muts']:
             if not valid:
-                fails.append('library-written JSON file of a vocabulary-type table is not reported valid: %s %s'
-                             % (obs['valid'], obs['report']))
+                fails.append('library-written JSON file (%s form) of a vocabulary-type table is not reported valid: %s %s'
+                             % (c.get('writer', 'returned string'), obs['valid'], obs['report']))
         bad = json_violations(doc)
         if bad and valid:
             fails.append('reported valid although: %s' % '; '.join(bad[:2]))
@@ -816,7 +849,7 @@ def oracle(c, obs):
         for ax in facts['range']:
             fails.append('reported valid although a %s index lies outside the shape' % ax)
         for ax in facts['elem']:
-            fails.append('reported valid although %s matrix elements are not numbers' % ax)
+            fails.append('reported valid although the elements of %s have the wrong type' % ax)
     return fails[:3]
 
 
@@ -839,6 +872,7 @@ def gen(rng, tier):
     for b in BASES:
         nr, nc = len(b['oids']), len(b['sids'])
         yield {'kind': 'json', 'spec': b, 'muts': []}
+        yield {'kind': 'json', 'spec': b, 'muts': [], 'writer': 'direct_io'}
         for mu in mutations(nr, nc):
             yield {'kind': 'json', 'spec': b, 'muts': [mu]}
         yield {'kind': 'h5', 'spec': b, 'muts': []}
@@ -850,11 +884,17 @@ def gen(rng, tier):
         yield {'kind': 'json', 'spec': s, 'muts': [], 'generated_by': rng.choice(['gen', 'x y', 'biom 2.1']),
                'date': [rng.choice([1, 1999, 2024]), rng.randint(1, 12), rng.randint(1, 28), rng.randint(0, 23),
                         rng.randint(0, 59), rng.randint(0, 59), rng.choice([0, 5, 999999])]}
+        yield {'kind': 'json', 'spec': s, 'muts': [], 'writer': 'direct_io', 'generated_by': rng.choice(['gen', 'x y']),
+               'date': [rng.choice([1, 1999, 2024]), rng.randint(1, 12), rng.randint(1, 28), rng.randint(0, 23),
+                        rng.randint(0, 59), rng.randint(0, 59), rng.choice([0, 5, 999999])]}
         yield {'kind': 'h5', 'spec': s, 'muts': []}
     for _ in range(n_rand):
         s = rand_table(rng)
         ms = mutations(len(s['oids']), len(s['sids']))
-        yield {'kind': 'json', 'spec': s, 'muts': [rng.choice(ms) for _ in range(rng.choice([1, 2, 2]))]}
+        c = {'kind': 'json', 'spec': s, 'muts': [rng.choice(ms) for _ in range(rng.choice([1, 2, 2]))]}
+        if rng.random() < 0.3:
+            c['writer'] = 'direct_io'
+        yield c
     for _ in range(n_h5):
         s = rand_table(rng)
         ms = h5_mutations(len(s['oids']), len(s['sids']))
@@ -879,6 +919,8 @@ def nontrivial(c):
 
 def classify(c):
     tags = [c['kind'] + (':mutations=%d' % len(c['muts']))]
+    if c['kind'] == 'json':
+        tags.append('json-writer:' + c.get('writer', 'string'))
     for mu in c['muts']:
         tags.append('%s:%s' % (c['kind'], mu[0]))
     tags.append('layout0:' + str((c['spec'].get('layout') or ['dense'])[0]))
